@@ -461,8 +461,28 @@ def _load_worker(job):
                 res = "readerror"
             except BaseException as err:  # noqa: BLE001
                 res = "other:" + type(err).__name__
+            again = False
+            if cls == "missing" and res == "ok" and k % 3 != 1 and os.path.exists(path):
+                # the created file disappears again and the same object loads once more (a second session of the
+                # same gateway, or a second call of load): a missing file is created whenever it is found missing
+                again = True
+                os.unlink(path)
+                before = proj(gw)["nodes"]
+                try:
+                    if via_context:
+                        async def enter2(g=gw):
+                            async with g:
+                                pass
+                        loop.run_until_complete(asyncio.wait_for(enter2(), 20))
+                    else:
+                        loop.run_until_complete(asyncio.wait_for(gw.persistence.load(), 20))
+                    res = "ok"
+                except PersistenceReadError:
+                    res = "readerror"
+                except BaseException as err:  # noqa: BLE001
+                    res = "other:" + type(err).__name__
             case = {"kind": "load", "class": cls, "file": tagged, "res": res, "loaded": proj(gw)["nodes"], "before": before,
-                    "created": False, "via": "context" if via_context else "load"}
+                    "created": False, "via": ("context" if via_context else "load") + (", missing a second time on the same object" if again else "")}
             if cls == "missing":
                 case["created"] = os.path.exists(path)
                 if case["created"]:
